@@ -48,3 +48,49 @@ pub fn unhex(s: &str) -> Vec<u8> {
         })
         .collect()
 }
+
+// ---------------------------------------------------------------- watchdog
+// The implementation is run in-process.  If it does not come back from one input within LIMIT seconds (a loop, or time
+// exponential in the input), the watchdog prints `HANG <hex of what was being processed>` and ends the process
+// with status 99; the checks report that input.
+use std::sync::Mutex;
+use std::time::Instant;
+
+pub const HANG_LIMIT_SECS: u64 = 30;
+static CURRENT: Mutex<Option<(Instant, Vec<u8>)>> = Mutex::new(None);
+
+pub struct Watch;
+/// marks the start of work on `what` (the input, or a description of the session); the mark ends when the guard is dropped
+pub fn watch(what: &[u8]) -> Watch {
+    if let Ok(mut c) = CURRENT.lock() {
+        *c = Some((Instant::now(), what.to_vec()));
+    }
+    Watch
+}
+impl Drop for Watch {
+    fn drop(&mut self) {
+        if let Ok(mut c) = CURRENT.lock() {
+            *c = None;
+        }
+    }
+}
+pub fn start_watchdog() {
+    std::thread::spawn(|| loop {
+        std::thread::sleep(std::time::Duration::from_millis(500));
+        let hung = match CURRENT.lock() {
+            Ok(c) => match &*c {
+                Some((t, what)) if t.elapsed().as_secs() >= HANG_LIMIT_SECS => Some(what.clone()),
+                _ => None,
+            },
+            Err(_) => None,
+        };
+        if let Some(what) = hung {
+            use std::io::Write;
+            let out = std::io::stdout();
+            let mut o = out.lock();
+            let _ = writeln!(o, "\nHANG {}", hex(&what));
+            let _ = o.flush();
+            std::process::exit(99);
+        }
+    });
+}
